@@ -277,6 +277,7 @@ type Exec struct {
 	harness string
 	splits  map[string]int
 	splitN  map[string]int
+	zoneOffsets map[*Object]*Term // time.FixedZone locations (timemodel.go)
 	curIns   ssa.Instruction // the instruction being executed (for diagnostics)
 	exactFmt bool // vxExactFormat(): fmt.Sprintf is modelled exactly where the format is in the model
 	tier    int
@@ -353,6 +354,7 @@ func (ex *Exec) resetPath(prefix []int) {
 	ex.splitIndex = false
 	ex.unwindIsViolation = false
 	ex.exactFmt = false
+	ex.zoneOffsets = nil
 	ex.depth = 0
 	ex.maxDepth = 200
 	ex.intMode = false
